@@ -39,9 +39,12 @@ def csr_stage(run, thorough, seed):
     inp = os.path.join(OUT, "traces", "C05-csr-in.ndjson")
     outp = os.path.join(OUT, "traces", "C05-csr-out.ndjson")
     write_ndjson(inp, scripts)
-    vh(["csr-replay", "--in", inp, "--out", outp])
-    res = read_ndjson(outp)
-    if len(res) != len(scripts):
+    res, died = vh_records(["csr-replay", "--in", inp], outp)
+    if died:
+        i = died["during"].get("i", len(res))
+        run.violation({"kind": "crash", "exec": "csr-replay", "rc": died["rc"], "calls": len(scripts[i]["hist"]) if i < len(scripts) else -1}, [scripts[min(i, len(scripts) - 1)]], header={"exec": "csr-replay"})
+        scripts = scripts[:len(res)]
+    elif len(res) != len(scripts):
         raise ToolError("csr-replay answered %d of %d" % (len(res), len(scripts)))
     bad = [x for x in res if not x["ok"]]
     run.traces += len(res) - len(bad)
